@@ -231,7 +231,9 @@ fn gen_dist(src: &mut Src, lo: f64, hi: f64) -> AnyDist {
         9 => {
             // (shape parameters far outside this range make the `probability` crate's incomplete beta
             // function take milliseconds per evaluation)
-            let (al, be) = (decade(src, -1, 1).min(50.0), decade(src, -1, 1).min(50.0));
+            // (Beta(0.1, 50) on a support deep in one tail still needs ~0.2 s per evaluation: a 20 s case that trips the
+            // per-case watchdog on a loaded machine; [0.5, 20] keeps every evaluation below a millisecond)
+            let (al, be) = (decade(src, -1, 1).clamp(0.5, 20.0), decade(src, -1, 1).clamp(0.5, 20.0));
             let a = location(src, lo, hi).clamp(-1e100, 1e100);
             let b = a + decade(src, -3, 6);
             if a < b {
